@@ -239,7 +239,9 @@ def streams(tier, rng, P, only=None, cases=None):
                 src = rng.choice(["FOR(INT I=0;I<2;I++){c}", "PRINT(1,,2)", "INT A=(1 ? 2)", "WHILE(0){ }", "Foo(1)", "c !d", "System.Unknown(1)", "PRINT(MID({a},1))",
                                   # expressions laid out over lines, stray characters inside conditions and argument lists
                                   "FUNCTION FOO(A,B){ RETURN(A+B); }\nINT X = FOO(3,\n            5)\nPRINT(X)\nc d e", "INT X=8 IF(X == 8\n){ c }", "IF(1 ?){c}", "INT X=0 WHILE(X<3 @){ X++ }",
-                                  "PRINT(1 +\n 2)", "FUNCTION G(A){ RETURN(A) } G(1 ! 2) PRINT(G(3 $))", "FOR(INT I=0; I<2 ~; I++){ c }", "INT A=(1\n+2\n) PRINT(A)", "IF(\n1\n){ d }ELSE{ e }"])
+                                  "PRINT(1 +\n 2)", "FUNCTION G(A){ RETURN(A) } G(1 ! 2) PRINT(G(3 $))", "FOR(INT I=0; I<2 ~; I++){ c }", "INT A=(1\n+2\n) PRINT(A)", "IF(\n1\n){ d }ELSE{ e }",
+                                  # values that are clamped when the file is written (nothing is said about it on standard output)
+                                  "PB(8192) c", "PB(-8193) c", "p(128) c", "Slur(1) l4 c&>c d", "y7,200 c", "@200 c", "v200 c,,300", "TimeBase(10) c", "Tempo(1000) c", "CH(20) c", "o12 c", "n200,4"])
                 cs.append(dict(req="run " + hx(src), src=src, show=src, kind="stdout", key="m%d" % i))
         return cs
     def misc_judge(c, impl, m):
